@@ -175,6 +175,26 @@ inline double kappa_inf_certified(const Csr<double> &A, const std::vector<double
     return static_cast<double>(anorm * zmax / theta);
 }
 
+// Numerical grade of (M, v): the first j for which the Arnoldi process started with v produces a sub-diagonal entry
+// h_{j+1,j} <= tau * max_k h_{k+1,k}, i.e. the Krylov space K_j(M, v) is M-invariant up to tau; maxsteps + 1 if that does not
+// happen within maxsteps steps.  Modified Gram-Schmidt with one re-orthogonalisation; dense, for the small systems of sub-domain T.
+template <class MatT, class VecT> size_t numerical_grade(const MatT &M, VecT v, size_t maxsteps, double tau) {
+    const ptrdiff_t n = M.rows();
+    double nv = v.norm(); if (!(nv > 0) || !std::isfinite(nv)) return 0;
+    std::vector<VecT> Q; Q.push_back(v / nv);
+    double hmax = 0;
+    for (size_t j = 1; j <= maxsteps && static_cast<ptrdiff_t>(j) <= n; ++j) {
+        VecT w = M * Q.back();
+        for (int pass = 0; pass < 2; ++pass) for (auto &q : Q) w -= q * q.dot(w);
+        double h = w.norm();
+        if (!std::isfinite(h)) return j;
+        if (h <= tau * hmax || h == 0) return j;
+        hmax = std::max(hmax, h);
+        Q.push_back(w / h);
+    }
+    return static_cast<ptrdiff_t>(maxsteps) >= n ? static_cast<size_t>(n) : maxsteps + 1;
+}
+
 // ---------------------------------------------------------------- oracle pieces
 template <class V> struct Res { long double rel = 0; std::vector<V> r; };
 // r = f - A x in long double, rounded to working precision for a subsequent precond().apply; rel = ||r||_2/||f||_2
